@@ -1,8 +1,8 @@
 (* C08 — Metric datapoints are stored and returned bit-exactly per series.
    Statements only; proofs in SigP.GorillaProofs / SigP.TsidProofs. *)
-From SigM Require Import Base Bits Gorilla Tsid.
+From SigM Require Import Base Bits Gorilla Tsid MetricsPlan.
 From SigG Require Import Gen.
-From SigP Require Import BaseProofs BitsProofs GorillaProofs TsidProofs GenC08 GenC08bw GenC08all.
+From SigP Require Import BaseProofs BitsProofs GorillaProofs TsidProofs MetricsPlanProofs GenC08 GenC08bw GenC08all.
 Open Scope Z_scope.
 
 (* The series codec (compressor.go -> bytes -> decompressor.go) returns every point with the
@@ -84,6 +84,75 @@ Example C08_tsid_same_keys_guard_satisfiable :
   let t2 : list tagp := [([104;111;115;116], [104;50]); ([100;99], [101;117])]%N in
   map fst t1 = map fst t2 /\ Forall tag_no_us t1 /\ Forall tag_no_us t2 /\ preimage [99%N] t1 <> preimage [99%N] t2.
 Proof. exact preimage_same_keys_guard_sat. Qed.
+
+(* ==== a selector query caught by a rotation (model SigM.MetricsPlan: one metrics shard; a datapoint is an id) ====
+   The search requests of a query are built on one state of the shard (plan: flushed blocks of the open segment,
+   the number of the in-memory block, the closed segments) and executed on a later one (exec false: the fix-up of
+   SearchUnrotatedMetricsBlock first, then the block numbers go to the workers - RawSearchMetricsSegment's order).
+   Property text, "before and after block and segment rotation": for all operations `before` and `between` (ingest,
+   block rotation, size-based segment rotation, forced flush), every datapoint the shard held when the requests were
+   built is returned.  Proved at full strength for the code (fix 5fd2cca: the fix-up compares the segment as well as
+   the block number). *)
+Theorem C08_query_racing_any_rotation_returns_every_datapoint : forall (before between : list op) (x : N),
+  In x (all_ids (run before init)) ->
+  In x (exec false (plan (run before init)) (run between (run before init))).
+Proof. exact race_complete_histories. Qed.
+Print Assumptions C08_query_racing_any_rotation_returns_every_datapoint.
+
+Example C08_query_racing_segment_rotation_first_block_example :
+  let before := [Ingest [1; 2]]%N in
+  let between := [RotSeg; Ingest [3]; RotBlock; Ingest [4]]%N in
+  exec false (plan (run before init)) (run [RotSeg; Ingest [3]]%N (run before init)) = [3; 1; 2]%N /\
+  exec false (plan (run before init)) (run between (run before init)) = [4; 1; 2]%N.
+Proof. exact race_segment_rotation_first_block_example. Qed.
+
+(* Before fix 5fd2cca the fix-up compared block NUMBERS only (exec_prefix).  That comparison returns every datapoint
+   exactly under race_guard (same segment, or another block number, or nothing planned in memory) and loses the
+   planned block otherwise: a segment rotation brings the shard back to block number 0. *)
+Theorem C08_prefix_query_racing_block_number_only_guarded : forall (before between : list op),
+  race_guard (run before init) (run between (run before init)) = true ->
+  forall x : N, In x (all_ids (run before init)) ->
+  In x (exec_prefix (plan (run before init)) (run between (run before init))).
+Proof. exact race_complete_prefix_guarded. Qed.
+Print Assumptions C08_prefix_query_racing_block_number_only_guarded.
+
+Theorem C08_prefix_query_racing_block_number_only_refuted : exists (before between : list op) (x : N),
+  In x (all_ids (run before init)) /\
+  race_guard (run before init) (run between (run before init)) = false /\
+  existsb (N.eqb x) (exec_prefix (plan (run before init)) (run between (run before init))) = false /\
+  existsb (N.eqb x) (exec false (plan (run before init)) (run between (run before init))) = true.
+Proof. exact prefix_segment_race_refuted. Qed.
+Print Assumptions C08_prefix_query_racing_block_number_only_refuted.
+
+Example C08_prefix_query_racing_guard_satisfiable_across_segment_rotation :
+  let before := [Ingest [1]; RotBlock; Ingest [2]]%N in
+  let between := [RotSeg; Ingest [3]]%N in
+  race_guard (run before init) (run between (run before init)) = true /\
+  no_seg_rotation between = false /\
+  exec_prefix (plan (run before init)) (run between (run before init)) = [3; 1; 2]%N.
+Proof. exact race_guard_segment_rotation_example. Qed.
+
+(* the order matters: with the block numbers handed to the workers BEFORE the fix-up (exec true), one datapoint,
+   requests built, one block rotation, execution - the datapoint is not returned (the code's order returns it) *)
+Theorem C08_query_racing_late_fixup_refuted : exists (before between : list op) (x : N),
+  no_seg_rotation between = true /\
+  In x (all_ids (run before init)) /\
+  existsb (N.eqb x) (exec true (plan (run before init)) (run between (run before init))) = false /\
+  existsb (N.eqb x) (exec false (plan (run before init)) (run between (run before init))) = true.
+Proof. exact late_fixup_refuted. Qed.
+Print Assumptions C08_query_racing_late_fixup_refuted.
+
+(* nothing is returned that the shard does not hold (any requests, either order), and a shard holds only what
+   was ingested: a raced query returns accepted datapoints only *)
+Theorem C08_query_racing_returns_only_held_datapoints : forall (late : bool) (pl : list req) (t : st) (x : N),
+  In x (exec late pl t) -> In x (all_ids t).
+Proof. exact race_sound. Qed.
+Print Assumptions C08_query_racing_returns_only_held_datapoints.
+
+Theorem C08_shard_holds_only_ingested_datapoints : forall (ops : list op) (x : N),
+  In x (all_ids (run ops init)) -> In x (ingested ops).
+Proof. exact held_was_ingested. Qed.
+Print Assumptions C08_shard_holds_only_ingested_datapoints.
 
 (* ==== the Go compressor itself, REGENERATED from compressor.go on every run by gotrans (coq/gen/Gen.v) ====
    gen_Compress / gen_finish thread the Compressor's integer fields as a tuple and return the calls made on
